@@ -30,7 +30,7 @@ func TestVerifC27Trace(t *testing.T) {
 	}
 	seed, _ := strconv.ParseInt(os.Getenv("VERIF_SEED"), 10, 64)
 	rng := rand.New(rand.NewSource(seed))
-	ntraces := 15
+	ntraces := 12
 	if os.Getenv("VERIF_TIER") == "thorough" {
 		ntraces = 120
 	}
